@@ -41,7 +41,7 @@ MIN_COUNTERS = {'quick': {'round_trips': 8000, 'paths_opened_by_pane': 2500, 'ca
 ALLOW = ('int', 'float', 'str', 'bool', 'none', 'list', 'seq', 'dict', 'tup', 'union', 'dc', 'enum', 'lit', 'fraction', 'decimal',
          'date', 'time', 'datetime', 'path', 'deque', 'sub', 'cc', 'set', 'bytes')
 STRINGS = ('héllo wörld', '日本語テキスト', '𝒳 astral 🎉', 'tab\there', 'line one\nline two\n', ' leading and trailing ', 'yes', 'no', '~', 'null',
-           '1e3', '2023-01-01', '0x10', '- a', 'k: v', '#notacomment', '', "quote's \"double\"", 'bell\x07', 'é' * 30, '@at', '%pct', '|', '>', '!tag', '&a', '*a')
+           '1e3', '2023-01-01', '0x10', '- a', 'k: v', '#notacomment', '', "quote's \"double\"", 'bell\x07', 'é' * 30, '@at', '%pct', '|', '>', '!tag', '&a', '*a', 'caf\udce9.txt', '\ud83c half a pair')
 
 OPENED = []          # (file, mode, encoding, file object) for every open() made by pane.io
 _real_open = builtins.open
@@ -60,9 +60,15 @@ def jsonable(d):
     return False
 
 
+def _lone_surrogate(s_):
+    return any(0xD800 <= ord(c) <= 0xDFFF for c in s_)
+
+
 def yamlable(d):
+    # (a lone surrogate - a file name decoded with surrogateescape - has a JSON spelling, "\\udce9", but none that libyaml will emit)
+    if isinstance(d, str): return not _lone_surrogate(d)
     if d is None or isinstance(d, (bool, int, float, str, bytes)): return True
-    if isinstance(d, collections.abc.Mapping): return all(isinstance(k, (str, int, bool, float, type(None))) and yamlable(v) for k, v in d.items())
+    if isinstance(d, collections.abc.Mapping): return all(isinstance(k, (str, int, bool, float, type(None))) and yamlable(k) and yamlable(v) for k, v in d.items())
     if isinstance(d, (list, tuple)): return all(yamlable(v) for v in d)
     return False
 
@@ -368,6 +374,46 @@ def run(ctx):
 
     drive.for_each_case(ctx, 'offset', max(20, ctx.budget // 8), body_offset, gen=gen, seconds=30)
 
+    # a caller's text file in ANOTHER encoding, already written to (a header comment, an existing file opened for appending), given
+    # non-ASCII text: what pane writes there is read back from the path (paths are UTF-8) as the same value, and the stream stays open
+    def body_encoding_offset(i, rng, ty, T):
+        import typing as _t
+        x = {'name': rng.choice(('h\u00e9llo', '\u65e5\u672c\u8a9e', 'stra\u00dfe \u2713', 'na\u00efve caf\u00e9')), 'k\u00e9y': '\u00df'}
+        TT = _t.Dict[str, str]
+        enc = rng.choice(('latin-1', 'cp1252', 'iso8859-15', 'utf-8'))
+        how = rng.choice(('header', 'append', 'pristine'))
+        fmt = rng.choice(('yaml', 'yaml', 'json'))
+        if fmt == 'json' and how != 'pristine':
+            how = 'pristine'            # (a JSON document cannot follow a preamble)
+        opts = rng.choice(({}, {'allow_unicode': True}, {'allow_unicode': False})) if fmt == 'yaml' else rng.choice(({}, {'indent': 2}))
+        path = fresh(fmt)
+        if how == 'append':
+            with _real_open(path, 'w', encoding='utf-8') as f0:
+                f0.write('# existing file\n')
+        stream = _real_open(path, 'a' if how == 'append' else 'w+', encoding=enc)
+        try:
+            if how == 'header':
+                stream.write('# written by the caller\n')
+            w = write(fmt, x, stream, TT, dict(opts), False)
+            ctx.count('foreign_encoding_streams_checked')
+            ctx.count('caller_streams_checked')
+            ctx.case(('encoding-offset', fmt, enc, how, str(sorted(opts.items())), w.kind), nontrivial=True)
+            wit = {'format': fmt, 'stream_encoding': enc, 'stream_state': how, 'options': opts, 'value': short(x, 120), 'write': w.brief()[:200]}
+            if w.kind != 'value' or stream.closed:
+                ctx.violation('caller-stream-left-open', 'encoding-offset', i, {**wit, 'closed': stream.closed}, mech='foreign-encoding-stream-closed-or-failed')
+                return
+            stream.close()
+            del OPENED[:]
+            r = read(fmt, path, TT, False)
+            if r.kind != 'value' or r.val != x:
+                ctx.violation('round-trip', 'encoding-offset', i, {**wit, 'read_back_from_the_path': r.brief()[:300]}, mech='caller-stream-not-written-as-utf8')
+        finally:
+            if not stream.closed:
+                stream.close()
+            del OPENED[:]
+
+    drive.for_each_case(ctx, 'encoding-offset', 40, body_encoding_offset, gen=lambda c, r: Ty('int'), seconds=30)
+
     # ---- multi-document YAML: one converted value per document -------------------------------------------------------------
     def body_all(i, rng, ty, T):
         if gentypes._has_any(ty) or not c05.in_scope(ty):
@@ -452,7 +498,7 @@ def run(ctx):
         custom = {complex: conv}
         cls = type(f"KZ{counter[0]}", (env.PaneBase,), {'__annotations__': {'z': complex, 'name': str, 'zs': t.List[complex]}, 'zs': env.pfield(default_factory=list),
                                                          '__module__': __name__})
-        x = cls.make_unchecked(complex(rng.choice((1.5, -2.0, 0.0)), rng.choice((2.0, -0.5))), rng.choice(STRINGS), [complex(1, 1)])
+        x = cls.make_unchecked(complex(rng.choice((1.5, -2.0, 0.0)), rng.choice((2.0, -0.5))), rng.choice(STRINGS[:-2]), [complex(1, 1)])
         if rng.random() < 0.5:
             # a converter whose data form has the SAME Python type as the value (seconds kept as milliseconds): applying it twice on
             # the way out, or not at all on the way in, changes the number
@@ -462,7 +508,7 @@ def run(ctx):
             counter[0] += 1
             cls = type(f"KM{counter[0]}", (env.PaneBase,), {'__annotations__': {'secs': int, 'name': str, 'ss': t.List[int]}, 'ss': env.pfield(default_factory=list),
                                                              '__module__': __name__})
-            x = cls.make_unchecked(rng.choice((5, 0, 86400)), rng.choice(STRINGS), [1, 2])
+            x = cls.make_unchecked(rng.choice((5, 0, 86400)), rng.choice(STRINGS[:-2]), [1, 2])
             ctx.count('same_type_custom_forms')
         for fmt in ('json', 'yaml'):
             for sink_kind in ('path', 'StringIO', 'returned-string'):
